@@ -1,4 +1,5 @@
 """C16 — a weighted function is exactly the weighted sum of its components."""
+import json, random
 import common, lib, runpass, runlevel
 from comp import Comp
 from common import enc_bits, fbits, bits2f
@@ -142,15 +143,138 @@ def one(C, drv, L, np, n, rp_extra=None):
            sample=dict(rp, value=float(out)) if n >= 3 else None)
 
 
+# --- integer-typed arguments ---------------------------------------------------------------------------------------
+# "for ... every input array": components written for integer arrays (exact sums, floor division, remainders, bit
+# masks) must be handed the caller's integer array itself, and the value is the exact integer sum of weight * value
+INT_COMPS = {
+    'total': (lambda z: z.sum(), lambda xs: sum(xs)),
+    'first': (lambda z: z.reshape(-1)[0], lambda xs: xs[0]),
+    'parity-of-last': (lambda z: z.reshape(-1)[-1] % 2, lambda xs: xs[-1] % 2),
+    'sum-of-halves': (lambda z: (z // 2).sum(), lambda xs: sum(v // 2 for v in xs)),
+    'low-bits': (lambda z: (z & 7).sum(), lambda xs: sum(v & 7 for v in xs)),
+    'total-minus-first': (lambda z: z.sum() - z.reshape(-1)[0], lambda xs: sum(xs) - xs[0]),
+}
+
+
+def gen_int_case(rng):
+    """payload of one integer-argument case (weights and entries small enough that no integer of the reference sum
+    leaves the dtype NumPy computes it in)"""
+    dtype = rng.choice(['int64', 'int64', 'int32', 'uint32', 'int16', 'uint8', 'uint64'])
+    shape = rng.choice([(2,), (3,), (4,), (2, 1), (3, 1), (2, 2)])
+    size = shape[0] * (shape[1] if len(shape) > 1 else 1)
+    top = {'int64': 2 ** 20, 'uint64': 2 ** 20, 'int32': 2 ** 24, 'uint32': 2 ** 24, 'int16': 400, 'uint8': 3}[dtype]
+    lo = 0 if dtype.startswith('u') else -top
+    xs = [rng.randint(lo, top) for _ in range(size)]
+    if dtype in ('int64', 'uint64') and rng.random() < 0.7:
+        # one entry beyond 2**53 (an integer a float does not hold) next to small ones
+        xs[rng.randrange(size)] = 2 ** rng.randint(54, 57) + rng.randint(1, 99)
+    n = rng.randint(1, 5)
+    ws_top = 1 if dtype in ('uint8', 'int16') else 3
+    return dict(how='weighted-int', dtype=dtype, shape=list(shape), x=xs, comps=[rng.choice(sorted(INT_COMPS)) for _ in range(n)],
+                ws=[rng.randint(0 if dtype.startswith('u') else -ws_top, ws_top) for _ in range(n)])
+
+
+def run_int_case(L, np, p):
+    """-> list of (what, details) the case violates"""
+    from fractions import Fraction
+    x = np.array(p['x'], dtype=p['dtype']).reshape(p['shape'])
+    if [int(v) for v in x.reshape(-1)] != list(p['x']):
+        return []                           # the entries do not fit the dtype: not a case
+    x0 = np.array(x, copy=True)
+    calls = []
+
+    def mk(i, name):
+        def f(z):
+            calls.append((i, z is x, getattr(z, 'dtype', None) == x0.dtype and np.array_equal(z, x0)))
+            return INT_COMPS[name][0](z)
+        return f
+    wf = L['WeightedFunction'](functions=[mk(i, c_) for i, c_ in enumerate(p['comps'])], weights=list(p['ws']))
+    try:
+        out = wf.pointer(x)
+    except Exception as ex:
+        return [('weighted-raised', dict(error=type(ex).__name__ + ': ' + str(ex)[:80]))]
+    bad = []
+    want = sum(w * INT_COMPS[c_][1](list(p['x'])) for w, c_ in zip(p['ws'], p['comps']))
+    try:
+        got = Fraction(out.item() if hasattr(out, 'item') else out)
+    except Exception:
+        got = None
+    if got != want:
+        bad.append(('not-the-weighted-sum', dict(got=repr(out), reference=want)))
+    if [c[0] for c in calls] != list(range(len(p['comps']))):
+        bad.append(('components-not-called-once-in-order', dict(calls=[c[0] for c in calls])))
+    if not all(c[1] and c[2] for c in calls) or x.dtype != x0.dtype or not np.array_equal(x, x0):
+        bad.append(('argument-modified-or-replaced', dict(same_object=[c[1] for c in calls], same_dtype_and_entries=[c[2] for c in calls])))
+    return bad
+
+
+# --- a callable listed more than once ------------------------------------------------------------------------------
+# "for every list of single-argument functions": every entry of the list is a component of its own, evaluated once per
+# call in list order - also when one (stateful, call-counting) callable stands at several positions
+def gen_repeated_case(rng):
+    n = rng.randint(2, 6)
+    k = rng.randint(1, n - 1)               # fewer callables than positions: at least one stands twice
+    return dict(how='weighted-repeated', slots=[rng.randrange(k) for _ in range(n)],
+                ws=[rng.choice([0.0, 0.5, 0.5, -1.5, 1.0, 2.0, 3, -2, 0.25]) for _ in range(n)],
+                vals=[rng.randint(-40, 40) * 0.25 for _ in range(k)], steps=[rng.randint(1, 9) * 0.125 for _ in range(k)],
+                via=rng.choice(['constructor', 'constructor', 'setter']))
+
+
+def run_repeated_case(L, np, p):
+    slots, ws, vals, steps = p['slots'], p['ws'], p['vals'], p['steps']
+    calls, count = [], [0] * len(vals)
+
+    def mk(j):
+        def f(z):
+            calls.append(j)
+            count[j] += 1
+            return vals[j] + (count[j] - 1) * steps[j]      # another reading at every evaluation
+        return f
+    fs = [mk(j) for j in range(len(vals))]
+    try:
+        if p['via'] == 'constructor':
+            wf = L['WeightedFunction'](functions=[fs[j] for j in slots], weights=list(ws))
+        else:
+            wf = L['WeightedFunction'](functions=[(lambda z: 0.0) for _ in slots], weights=list(ws))
+            Fs = [L['Function'](pointer=f) for f in fs]
+            wf.functions = [Fs[j] for j in slots]
+        x = np.array([[0.5], [-1.5]])
+        bad = []
+        seen = [0] * len(vals)
+        for call in range(2):
+            del calls[:]
+            out = wf.pointer(x)
+            ref = 0
+            for j, w in zip(slots, ws):
+                ref += w * (vals[j] + seen[j] * steps[j])
+                seen[j] += 1
+            if calls != list(slots):
+                bad.append(('components-not-called-once-in-order', dict(call=call, calls=list(calls), listed=list(slots))))
+            if not (float(out) == float(ref)):
+                bad.append(('not-the-weighted-sum', dict(call=call, got=float(out), reference=float(ref))))
+            if bad:
+                break
+        return bad
+    except Exception as ex:
+        return [('weighted-raised', dict(error=type(ex).__name__ + ': ' + str(ex)[:80]))]
+
+
 def check(ctx):
     L = lib.load()
     np = L['np']
     C = Comp(ctx, 'one case = one WeightedFunction (1-6 recording components with scripted values, zero/negative/large/int weights) evaluated once: value compared bit-exactly with the Lean fold and with a Python reference, call log (each component exactly once, in order, on the very argument, unmodified); plus optimisation runs with a WeightedFunction objective; non-trivial = at least two components and a weight different from 1',
              ['components are single-argument callables', 'equally long lists'])
     drv = common.Driver()
+    rng2 = random.Random(ctx['seed'] * 7919 + 16)
     try:
         for k in range(300 if ctx['tier'] == 'quick' else 5000):
             one(C, drv, L, np, C.rng.randint(1, 6))
+            # integer-typed arguments and component lists naming one callable several times (own random stream)
+            for gen, run, kind in ((gen_int_case, run_int_case, 'integer-argument'), (gen_repeated_case, run_repeated_case, 'repeated-callable')):
+                p_ = gen(rng2)
+                for what, det in run(L, np, p_):
+                    C.issue(what, 'oracle', p_, **det)
+                C.case(key=(kind, json.dumps(p_, sort_keys=True)), nontrivial=len(p_['ws']) >= 2, kind=kind)
         # optimisable wherever a plain Function is: every kind once with the weighted objective
         for kind in runlevel.KINDS:
             cfg = next(c for c in runlevel.gen_configs('thorough', ctx['seed']) if c['kind'] == kind)
@@ -192,6 +316,10 @@ def search(ctx, corr, broken):
 def replay(prop, payload):
     L = lib.load()
     np = L['np']
+    if payload['how'] == 'weighted-int':
+        return bool(run_int_case(L, np, payload))
+    if payload['how'] == 'weighted-repeated':
+        return bool(run_repeated_case(L, np, payload))
     if payload['how'] != 'weighted':
         return True
     ws, vals = payload['ws'], payload['vals']
